@@ -547,7 +547,87 @@ def r6_lazy_reentrancy(ctx):
     return out
 
 
+# ------------------------------------------------------------------------------------------ R7 tolerance table
+# Every place where the library looks at *which* errno a failing call returned is a place where a failure may be
+# turned into success / a retry / a fallback. The set of errno values each function distinguishes is a closed table.
+TOLERANCE_TABLE = {
+    "<resolvers::PartialLookup<handle::Handle> as std::convert::TryInto<(handle::Handle, std::option::Option<std::path::PathBuf>)>>::try_into": ({ENOENT}, "partial lookup: only a missing component makes the remainder creatable"),
+    "<std::result::Result<(), error::Error> as utils::dir::RmdirResultExt>::ignore_enoent": ({ENOENT}, "already removed by somebody else"),
+    "procfs::ProcfsHandle::open": ({ENOENT}, "masked-handle retry only for ENOENT"),
+    "resolvers::openat2::resolve": ({EAGAIN, ENOSYS}, "EAGAIN: bounded retry; ENOSYS: NotSupported error"),
+    "resolvers::procfs::opath_resolve": ({ENOTDIR}, "O_DIRECTORY on a trailing symlink: fall through to following it"),
+    "root::RootRef::mkdir_all": ({EEXIST}, "component created concurrently / already there"),
+    "utils::dir::remove_all": ({ENOENT}, "subtree already removed"),
+    "utils::dir::remove_inode": ({ENOTDIR}, "prefer the unlink error if the entry is not a directory"),
+    "utils::fd::fetch_mnt_id": ({ENOSYS, EINVAL}, "statx without mount-id support"),
+    "syscalls::RENAME_FLAGS_SUPPORTED": ({ENOSYS}, "feature probe"),
+}
+
+
+def _errnos_distinguished(ctx, b):
+    T = ctx.tracer
+    errs = set()
+    for blk in b.blocks:
+        if blk.cleanup:
+            continue
+        t = blk.term
+        if t.kind == "switch" and t.raw["dty"] == "i32":
+            for v in t.raw["vals"]:
+                errs.add(v)
+        for s in blk.stmts:
+            if s.kind == "assign" and s.rv["k"] == "bin" and s.rv["op"] in ("Eq", "Ne"):
+                for o in s.rv_operands():
+                    if o.is_const and (o.const.get("item") or "").startswith("libc::E"):
+                        errs.add(o.int_value(True))
+    for t in b.calls("std::cmp::PartialEq::eq", "std::cmp::PartialEq::ne"):
+        for i in (0, 1):
+            for o in T.origins_of_arg(t, i):
+                if o.kind != "const":
+                    continue
+                ty = o.op.const.get("ty", "")
+                if "Errno" in ty:
+                    e = errno_of_origin(o)
+                    if e is not None:
+                        errs.add(e)
+                elif "ErrorKind" in ty or "Option<i32>" in ty:
+                    raw = decode_bytes(o.const_bytes() or "")
+                    if len(raw) >= 8:
+                        errs.add(int.from_bytes(raw[-4:], "little"))
+    return errs
+
+
+def r7_tolerance_table(ctx):
+    F = ctx.facts
+    out = []
+    agg = {}
+    where = {}
+    for b in F.fn_bodies():
+        if is_bitflags_generated(b) or b.file.startswith("src/capi"):
+            continue
+        if b.file == "src/syscalls.rs" and b.kind != "closure":
+            continue
+        if fn_key(b).startswith(("error::", "<error::", "<syscalls::")):
+            continue
+        errs = _errnos_distinguished(ctx, b)
+        if not errs:
+            continue
+        fk = re.sub(r"(::\{closure#\d+\})+$", "", fn_key(b))   # closures are keyed by their function
+        agg.setdefault(fk, set()).update(errs)
+        where.setdefault(fk, b.where())
+    for fk, errs in sorted(agg.items()):
+        key = "%s:errnos" % fk
+        want = TOLERANCE_TABLE.get(fk)
+        if want is None:
+            out.append(violated("C10.R7", key, where[fk], "%s distinguishes errno values %s of a failing call but has no row in the table of tolerated/special-cased failures" % (fk, sorted(errs))))
+        elif errs != want[0]:
+            out.append(violated("C10.R7", key, where[fk], "failures special-cased in %s: %s, audited set %s (%s): an additional tolerated errno reports success for work that was not done" % (fk, sorted(errs), sorted(want[0]), want[1])))
+        else:
+            out.append(holds("C10.R7", key, where[fk], "special-cases exactly %s: %s" % (sorted(errs), want[1])))
+    return out
+
+
 RULES = [
+    ("C10.R7", r7_tolerance_table, 9, False),
     ("C10.R1", r1_panics, 30, False),
     ("C10.R2", r2_error_discipline, 100, False),
     ("C10.R3", r3_loops, 8, False),
